@@ -34,7 +34,7 @@ def cases(rng, tier):
             p = workflow.gen_chain_problem(rng)
             p["form"] = "dict"
         else:
-            p = workflow.gen_problem(rng, max_q=5, max_cuts=2, depth=6)
+            p = workflow.gen_problem(rng, max_q=5, max_cuts=2, depth=6, idle_obs=True)
             p["form"] = "single" if rng.random() < 0.3 else "dict"
         p["N"] = None
         p["seed"] = 0
